@@ -45,6 +45,7 @@ const (
 	tList    // []T, [N]T with T an integer type
 	tStruct
 	tTuple
+	tFunc // local closure
 )
 
 type ity struct {
@@ -53,7 +54,9 @@ type ity struct {
 	elem   *ity
 	name   string // struct name (Lean structure name)
 	fields []field
-	parts  []*ity // tuple
+	parts  []*ity // tuple; closure: parameter types
+	ret    *ity   // closure result
+	resFn  bool   // closure returns R
 }
 
 type field struct {
@@ -161,9 +164,12 @@ type translator struct {
 	strs   map[string]*ity
 	strOrd []string
 	busy   map[string]bool
+	initTables map[string]*fxSpec // pkg|table -> the whitelisted init function that fills it
 }
 
 type fnOut struct {
+	written []int  // indices of list parameters the function writes (returned after the Go results)
+	goRes   []*ity // the Go results
 	spec    *fxSpec
 	text    string
 	res     bool
@@ -320,6 +326,9 @@ type fctx struct {
 	tmp    int
 	pend   []pendBind
 	retFn  func(string) string // how a `return e` is rendered (nil = function level)
+	loops  []loopCtx
+	goRes   []*ity   // Go results of the function being translated
+	written []string // Go names of the written list parameters (appended to every return)
 	consts map[string]bool     // memo guard for const evaluation
 }
 
@@ -443,6 +452,16 @@ func (c *fctx) goType(pk *fxPkg, file *ast.File, e ast.Expr) *ity {
 					}
 					return c.goType(p2, p2.fileOf[u], u)
 				}
+			} else if ok && dir == "std:image/color" && t.Sel.Name == "NRGBA" {
+				// the standard library's `type NRGBA struct{ R, G, B, A uint8 }` (mapped explicitly)
+				if s := c.tr.strs["NRGBA"]; s != nil {
+					return s
+				}
+				u8 := &ity{k: tU, bits: 8}
+				s := &ity{k: tStruct, name: "NRGBA", fields: []field{{"R", u8}, {"G", u8}, {"B", u8}, {"A", u8}}}
+				c.tr.strs["NRGBA"] = s
+				c.tr.strOrd = append(c.tr.strOrd, "NRGBA")
+				return s
 			}
 		}
 	}
@@ -738,7 +757,87 @@ func (c *fctx) expr(e ast.Expr, want *ity) (string, *ity) {
 			c.fail(e, "index of type %s", ti)
 		}
 		return c.partial(e, fmt.Sprintf("idxI %s %s", xs, is)), tx.elem
+	case *ast.CompositeLit:
+		st := c.goType(c.pk, c.file, t.Type)
+		if st == nil || st.k != tStruct {
+			c.fail(e, "composite literal")
+		}
+		vals := map[string]string{}
+		for _, el := range t.Elts {
+			kv, ok := el.(*ast.KeyValueExpr)
+			if !ok {
+				c.fail(e, "positional composite literal")
+			}
+			key, _ := kv.Key.(*ast.Ident)
+			var ft *ity
+			for _, f := range st.fields {
+				if key != nil && f.name == key.Name {
+					ft = f.ty
+				}
+			}
+			if ft == nil || !(ft.isInt() || ft.k == tBool) {
+				c.fail(el, "field of the composite literal")
+			}
+			v, tv := c.expr(kv.Value, ft)
+			if tv.typed() && !sameTy(tv, ft) {
+				c.fail(el, "field value of type %s for %s", tv, ft)
+			}
+			vals[key.Name] = v
+		}
+		var parts []string
+		for _, f := range st.fields {
+			if f.ty == nil {
+				continue
+			}
+			v, ok := vals[f.name]
+			if !ok {
+				switch {
+				case f.ty.k == tBool:
+					v = "false"
+				case f.ty.k == tList:
+					v = "[]"
+				default:
+					v = "0"
+				}
+			}
+			parts = append(parts, fmt.Sprintf("%s := %s", fxLeanIdent(f.name), v))
+		}
+		return fmt.Sprintf("({ %s } : %s)", strings.Join(parts, ", "), st.name), st
+	case *ast.SliceExpr:
+		xs, tx := c.expr(t.X, nil)
+		if tx.k != tList || t.Slice3 {
+			c.fail(e, "slice expression on %s", tx)
+		}
+		lo, hi := "0", fmt.Sprintf("(lenI %s)", xs)
+		if t.Low != nil {
+			var tl *ity
+			if lo, tl = c.expr(t.Low, tyInt); !tl.isInt() {
+				c.fail(e, "slice bound")
+			}
+		}
+		if t.High != nil {
+			var th *ity
+			if hi, th = c.expr(t.High, tyInt); !th.isInt() {
+				c.fail(e, "slice bound")
+			}
+		}
+		return c.partial(e, fmt.Sprintf("sliceI %s %s %s", xs, lo, hi)), tx
 	case *ast.CallExpr:
+		if m := c.leCall(t); m != "" {
+			fn := leGet[m]
+			if fn == "" || len(t.Args) != 1 {
+				c.fail(e, "binary.LittleEndian.%s inside an expression", m)
+			}
+			xs, tx := c.expr(t.Args[0], nil)
+			if tx.k != tList || tx.elem.k != tU || tx.elem.bits != 8 {
+				c.fail(e, "binary.LittleEndian.%s of %s", m, tx)
+			}
+			bits := 16
+			if m == "Uint32" {
+				bits = 32
+			}
+			return c.partial(e, fn+" "+xs), &ity{k: tU, bits: bits}
+		}
 		return c.call(t, want)
 	}
 	c.fail(e, "expression")
@@ -890,8 +989,23 @@ func (c *fctx) call(t *ast.CallExpr, want *ity) (string, *ity) {
 	}
 	switch f := t.Fun.(type) {
 	case *ast.Ident:
-		if c.lookup(f.Name) != nil {
-			c.fail(t, "call of a local function value")
+		if v := c.lookup(f.Name); v != nil {
+			if v.ty.k != tFunc || len(t.Args) != len(v.ty.parts) {
+				c.fail(t, "call of a local value that is not a translated closure")
+			}
+			var args []string
+			for i, a := range t.Args {
+				sa, ta := c.expr(a, v.ty.parts[i])
+				if ta.typed() && !sameTy(ta, v.ty.parts[i]) {
+					c.fail(a, "argument of type %s for parameter of type %s", ta, v.ty.parts[i])
+				}
+				args = append(args, sa)
+			}
+			text := v.lean + " " + strings.Join(args, " ")
+			if v.ty.resFn {
+				return c.partial(t, text), v.ty.ret
+			}
+			return "(" + text + ")", v.ty.ret
 		}
 		switch f.Name {
 		case "len":
@@ -959,6 +1073,9 @@ func (c *fctx) userCall(t *ast.CallExpr, pk *fxPkg, recv, name string, recvText 
 	if out.params == nil && out.result == nil {
 		c.fail(t, "call of %s, which could not be translated", name)
 	}
+	if len(out.written) != 0 {
+		c.fail(t, "call of %s, which writes a slice argument, inside an expression", name)
+	}
 	var args []string
 	if recvText != nil {
 		args = append(args, *recvText)
@@ -990,6 +1107,17 @@ func (tr *translator) table(c *fctx, pk *fxPkg, name string, vs *ast.ValueSpec, 
 	lean := name
 	if pk != c.pk {
 		lean = filepath.Base(pk.dir) + "_" + name
+	}
+	if isp := tr.initTables[pk.dir+"|"+name]; isp != nil {
+		out := tr.translate(isp)
+		if out.params == nil && out.result == nil {
+			c.fail(at, "table %s: its init function could not be translated", name)
+		}
+		lt := c.goType(pk, pk.fileOf[vs], vs.Type)
+		if lt == nil || lt.k != tList {
+			c.fail(at, "table %s: type", name)
+		}
+		return tableLean(c, pk, name), lt
 	}
 	idx := -1
 	for i, id := range vs.Names {
@@ -1122,9 +1250,9 @@ func (c *fctx) assigned(nodes ...ast.Node) []string {
 	var out []string
 	seen := map[string]bool{}
 	add := func(e ast.Expr, at ast.Node) {
-		id, ok := e.(*ast.Ident)
-		if !ok {
-			c.fail(at, "assignment to a non-variable (slices and arrays are read-only in the subset)")
+		id := baseIdent(e)
+		if id == nil {
+			c.fail(at, "assignment to something that is not a variable or an element of a slice variable")
 		}
 		if id.Name == "_" {
 			return
@@ -1154,6 +1282,10 @@ func (c *fctx) assigned(nodes ...ast.Node) []string {
 				}
 			case *ast.IncDecStmt:
 				add(s.X, s)
+			case *ast.CallExpr:
+				for _, i := range c.callWrites(s) {
+					add(s.Args[i], s)
+				}
 			case *ast.DeclStmt:
 				if gd, ok := s.Decl.(*ast.GenDecl); ok {
 					for _, sp := range gd.Specs {
@@ -1219,6 +1351,9 @@ func (c *fctx) stmts(list []ast.Stmt, ind string, k kont) string {
 	case *ast.ReturnStmt:
 		return c.retStmt(t, ind)
 	case *ast.ExprStmt:
+		if call, ok := t.X.(*ast.CallExpr); ok {
+			return c.callStmt(call, nil, false, ind) + next(ind)
+		}
 		c.fail(s, "expression statement")
 	case *ast.DeclStmt:
 		gd, ok := t.Decl.(*ast.GenDecl)
@@ -1229,6 +1364,17 @@ func (c *fctx) stmts(list []ast.Stmt, ind string, k kont) string {
 		for _, sp := range gd.Specs {
 			vs := sp.(*ast.ValueSpec)
 			var vt *ity
+			if at, ok := vs.Type.(*ast.ArrayType); ok && at.Len != nil && len(vs.Values) == 0 {
+				n, _, okc := c.constVal(c.pk, c.file, at.Len, -1, 0)
+				lt := c.goType(c.pk, c.file, vs.Type)
+				if !okc || lt == nil || lt.k != tList {
+					c.fail(s, "array variable")
+				}
+				for _, id := range vs.Names {
+					fmt.Fprintf(&b, "%slet %s : List Int := zerosI %s\n", ind, c.declare(id.Name, lt), n.ExactString())
+				}
+				continue
+			}
 			if vs.Type != nil {
 				vt = c.goType(c.pk, c.file, vs.Type)
 				if vt == nil || !(vt.isInt() || vt.k == tBool) {
@@ -1267,6 +1413,9 @@ func (c *fctx) stmts(list []ast.Stmt, ind string, k kont) string {
 		return c.stmts(append([]ast.Stmt{&ast.AssignStmt{Lhs: []ast.Expr{t.X}, TokPos: t.TokPos, Tok: op,
 			Rhs: []ast.Expr{&ast.BasicLit{ValuePos: t.TokPos, Kind: token.INT, Value: "1"}}}}, rest...), ind, k)
 	case *ast.AssignStmt:
+		if fl, ok := t.Rhs[0].(*ast.FuncLit); ok && len(t.Lhs) == 1 && len(t.Rhs) == 1 && t.Tok == token.DEFINE {
+			return c.closure(t.Lhs[0], fl, ind) + next(ind)
+		}
 		return c.assign(t, ind) + next(ind)
 	case *ast.IfStmt:
 		return c.ifStmt(t, ind, next)
@@ -1274,6 +1423,18 @@ func (c *fctx) stmts(list []ast.Stmt, ind string, k kont) string {
 		return c.stmts(append(c.switchToIf(t), rest...), ind, k)
 	case *ast.ForStmt:
 		return c.forStmt(t, ind, next)
+	case *ast.RangeStmt:
+		return c.forStmt(c.rangeToFor(t), ind, next)
+	case *ast.BranchStmt:
+		if len(c.loops) == 0 || t.Label != nil {
+			c.fail(s, "%s outside a loop", t.Tok)
+		}
+		if t.Tok == token.CONTINUE {
+			return c.loops[len(c.loops)-1].cont(ind)
+		}
+		if t.Tok == token.BREAK {
+			return c.loops[len(c.loops)-1].brk(ind)
+		}
 	}
 	c.fail(s, "statement")
 	return ""
@@ -1281,25 +1442,24 @@ func (c *fctx) stmts(list []ast.Stmt, ind string, k kont) string {
 
 func (c *fctx) retStmt(t *ast.ReturnStmt, ind string) string {
 	var parts []string
-	want := c.result
+	ws := c.goRes
 	if len(t.Results) == 0 {
-		if len(c.named) == 0 {
+		if len(ws) != 0 && len(c.named) == 0 {
 			c.fail(t, "bare return in a function without named results")
 		}
 		for _, n := range c.named {
 			parts = append(parts, c.lookup(n).lean)
 		}
-	} else if want.k == tTuple && len(t.Results) == 1 {
+	} else if len(ws) > 1 && len(t.Results) == 1 {
+		if len(c.written) != 0 {
+			c.fail(t, "return f(x) with a multi-value f in a function that writes a slice")
+		}
 		s, ty := c.expr(t.Results[0], nil) // return f(x) with a multi-value f
-		if ty.k != tTuple || len(ty.parts) != len(want.parts) {
+		if ty.k != tTuple || len(ty.parts) != len(ws) {
 			c.fail(t, "return value count")
 		}
 		parts = []string{s}
 	} else {
-		ws := []*ity{want}
-		if want.k == tTuple {
-			ws = want.parts
-		}
 		if len(ws) != len(t.Results) {
 			c.fail(t, "return value count")
 		}
@@ -1311,15 +1471,339 @@ func (c *fctx) retStmt(t *ast.ReturnStmt, ind string) string {
 			parts = append(parts, s)
 		}
 	}
-	v := parts[0]
-	if len(parts) > 1 {
-		v = "(" + strings.Join(parts, ", ") + ")"
+	pre := c.flush(ind)
+	return pre + ind + c.ret(c.withWritten(parts)) + "\n"
+}
+
+// withWritten appends the current values of the written list parameters to the Go results
+func (c *fctx) withWritten(parts []string) string {
+	for _, w := range c.written {
+		parts = append(parts, c.lookup(w).lean)
 	}
-	return c.flush(ind) + ind + c.ret(v) + "\n"
+	if len(parts) == 1 {
+		return parts[0]
+	}
+	return "(" + strings.Join(parts, ", ") + ")"
+}
+
+// closure: `f := func(params) T { body }` that only reads the variables it captures becomes a
+// local Lean function
+func (c *fctx) closure(lhs ast.Expr, fl *ast.FuncLit, ind string) string {
+	id, ok := lhs.(*ast.Ident)
+	if !ok || fl.Type.Results == nil || len(fl.Type.Results.List) != 1 || len(fl.Type.Results.List[0].Names) > 1 {
+		c.fail(fl, "closure shape (one unnamed result expected)")
+	}
+	rt := c.goType(c.pk, c.file, fl.Type.Results.List[0].Type)
+	if rt == nil || !(rt.isInt() || rt.k == tBool) {
+		c.fail(fl, "closure result type")
+	}
+	if w := c.assigned(fl.Body); len(w) != 0 {
+		c.fail(fl, "closure assigns the captured variable %s", w[0])
+	}
+	render := func(res bool) (text string, okRender bool) {
+		sn, tmp := c.snap(), c.tmp
+		save := *c
+		defer func() {
+			scopes, used, tmp2 := c.scopes, c.used, c.tmp
+			*c = save
+			c.scopes, c.used, c.tmp = scopes, used, tmp2
+			c.restore(sn)
+			if r := recover(); r != nil {
+				if _, isNeed := r.(needRes); isNeed && !res {
+					c.tmp = tmp
+					text, okRender = "", false
+					return
+				}
+				panic(r)
+			}
+		}()
+		c.res, c.result, c.goRes, c.named, c.written, c.retFn, c.loops, c.pend = res, rt, []*ity{rt}, nil, nil, nil, nil, nil
+		c.push()
+		var ps []string
+		for _, p := range fl.Type.Params.List {
+			pt := c.goType(c.pk, c.file, p.Type)
+			if pt == nil || !(pt.isInt() || pt.k == tBool) || len(p.Names) == 0 {
+				c.fail(fl, "closure parameter")
+			}
+			for _, n := range p.Names {
+				ps = append(ps, fmt.Sprintf("(%s : %s)", c.declare(n.Name, pt), pt.lean()))
+			}
+		}
+		body := c.stmts(fl.Body.List, ind+"    ", func(string) string {
+			c.fail(fl, "control can reach the end of the closure body")
+			return ""
+		})
+		return "fun " + strings.Join(ps, " ") + " =>\n" + body, true
+	}
+	if len(c.pend) != 0 {
+		c.fail(fl, "closure after pending partial operations")
+	}
+	text, okR := render(false)
+	resFn := false
+	if !okR {
+		if !c.res {
+			panic(needRes{})
+		}
+		text, _ = render(true)
+		resFn = true
+	}
+	var pts []*ity
+	for _, p := range fl.Type.Params.List {
+		pt := c.goType(c.pk, c.file, p.Type)
+		for range p.Names {
+			pts = append(pts, pt)
+		}
+	}
+	name := c.declare(id.Name, &ity{k: tFunc, parts: pts, ret: rt, resFn: resFn})
+	return fmt.Sprintf("%slet %s := %s", ind, name, text)
+}
+
+func baseIdent(e ast.Expr) *ast.Ident {
+	for {
+		switch x := e.(type) {
+		case *ast.Ident:
+			return x
+		case *ast.IndexExpr:
+			e = x.X
+		case *ast.SliceExpr:
+			e = x.X
+		case *ast.ParenExpr:
+			e = x.X
+		default:
+			return nil
+		}
+	}
+}
+
+var lePut = map[string]string{"PutUint16": "lePutU16", "PutUint32": "lePutU32"}
+var leGet = map[string]string{"Uint16": "leU16", "Uint32": "leU32"}
+
+// leCall recognises binary.LittleEndian.<M>(…) (encoding/binary), a mapped builtin
+func (c *fctx) leCall(t *ast.CallExpr) string {
+	f, ok := t.Fun.(*ast.SelectorExpr)
+	if !ok {
+		return ""
+	}
+	le, ok := f.X.(*ast.SelectorExpr)
+	if !ok || le.Sel.Name != "LittleEndian" {
+		return ""
+	}
+	x, ok := le.X.(*ast.Ident)
+	if !ok || c.lookup(x.Name) != nil || c.pk.imports[c.file][x.Name] != "std:encoding/binary" {
+		return ""
+	}
+	return f.Sel.Name
+}
+
+// calleeOut resolves a call of a whitelisted function (nil when it is something else)
+func (c *fctx) calleeOut(t *ast.CallExpr) (out *fnOut, recv ast.Expr) {
+	var sp *fxSpec
+	switch f := t.Fun.(type) {
+	case *ast.Ident:
+		if c.lookup(f.Name) == nil {
+			sp = c.tr.specs[specKey(c.pk.dir, "", f.Name)]
+		}
+	case *ast.SelectorExpr:
+		if x, ok := f.X.(*ast.Ident); ok && c.lookup(x.Name) == nil {
+			if dir, ok := c.pk.imports[c.file][x.Name]; ok && !strings.HasPrefix(dir, "std:") {
+				sp = c.tr.specs[specKey(dir, "", f.Sel.Name)]
+			}
+		} else if ok {
+			if v := c.lookup(x.Name); v != nil && v.ty.k == tStruct {
+				sp = c.tr.specs[specKey(c.pk.dir, v.ty.name, f.Sel.Name)]
+				recv = f.X
+			}
+		}
+	}
+	if sp == nil {
+		return nil, nil
+	}
+	return c.tr.translate(sp), recv
+}
+
+// callWrites: indices of the arguments (slice variables) that the call writes
+func (c *fctx) callWrites(t *ast.CallExpr) []int {
+	if m := c.leCall(t); lePut[m] != "" {
+		return []int{0}
+	}
+	out, recv := c.calleeOut(t)
+	if out == nil || len(out.written) == 0 {
+		return nil
+	}
+	var idx []int
+	for _, w := range out.written {
+		if recv != nil {
+			w--
+		}
+		idx = append(idx, w)
+	}
+	return idx
+}
+
+// callStmt renders a call used as a statement or as the single right-hand side of an assignment,
+// when the callee writes slice arguments: the updated slices come back after the Go results
+func (c *fctx) callStmt(t *ast.CallExpr, lhs []ast.Expr, define bool, ind string) string {
+	if !c.res {
+		panic(needRes{})
+	}
+	writes := c.callWrites(t)
+	isW := map[int]bool{}
+	for _, w := range writes {
+		isW[w] = true
+	}
+	var fn string
+	var ptys, rtys []*ity
+	var args []string
+	if m := c.leCall(t); m != "" {
+		fn = lePut[m]
+		if fn == "" || len(t.Args) != 2 {
+			c.fail(t, "binary.LittleEndian.%s as a statement", m)
+		}
+		bits := 16
+		if m == "PutUint32" {
+			bits = 32
+		}
+		ptys = []*ity{{k: tList, elem: &ity{k: tU, bits: 8}}, {k: tU, bits: bits}}
+	} else {
+		out, recv := c.calleeOut(t)
+		if out == nil {
+			c.fail(t, "call statement of a function that is not whitelisted")
+		}
+		if out.params == nil {
+			c.fail(t, "call of a function that could not be translated")
+		}
+		if len(out.written) == 0 {
+			c.fail(t, "call statement of a function without slice side effects")
+		}
+		fn, ptys, rtys = out.lean, out.params, out.goRes
+		if recv != nil {
+			s, _ := c.expr(recv, nil)
+			args = append(args, s)
+			ptys = ptys[1:]
+		}
+	}
+	if len(t.Args) != len(ptys) {
+		c.fail(t, "argument count")
+	}
+	if len(lhs) != 0 && len(lhs) != len(rtys) {
+		c.fail(t, "assignment arity")
+	}
+	type back struct {
+		v       *vinfo
+		off, tm string
+	}
+	var backs []back
+	var pats []string
+	for i, a := range t.Args {
+		if !isW[i] {
+			s, ty := c.expr(a, ptys[i])
+			if ty.typed() && !sameTy(ty, ptys[i]) {
+				c.fail(a, "argument of type %s for parameter of type %s", ty, ptys[i])
+			}
+			args = append(args, s)
+			continue
+		}
+		id := baseIdent(a)
+		var v *vinfo
+		if id != nil {
+			v = c.lookup(id.Name)
+		}
+		if v == nil || v.ty.k != tList || !sameTy(v.ty, ptys[i]) {
+			c.fail(a, "written slice argument must be a slice variable (or x[a:], x[a:b]) of the parameter type")
+		}
+		switch x := a.(type) {
+		case *ast.Ident:
+			args = append(args, v.lean)
+			backs = append(backs, back{v: v})
+		case *ast.SliceExpr:
+			if _, ok := x.X.(*ast.Ident); !ok || x.Slice3 {
+				c.fail(a, "written slice argument")
+			}
+			off := "0"
+			if x.Low != nil {
+				off, _ = c.expr(x.Low, tyInt)
+			}
+			sub, _ := c.expr(a, nil)
+			args = append(args, sub)
+			c.tmp++
+			backs = append(backs, back{v: v, off: off, tm: fmt.Sprintf("w%d", c.tmp)})
+		default:
+			c.fail(a, "written slice argument")
+		}
+	}
+	var b strings.Builder
+	b.WriteString(c.flush(ind))
+	for i := range rtys {
+		if len(lhs) == 0 {
+			pats = append(pats, c.declare("_", rtys[i]))
+			continue
+		}
+		id, ok := lhs[i].(*ast.Ident)
+		if !ok {
+			c.fail(t, "assignment target")
+		}
+		if id.Name == "_" {
+			pats = append(pats, c.declare("_", rtys[i]))
+		} else if define {
+			pats = append(pats, c.declare(id.Name, rtys[i]))
+		} else {
+			v := c.lookup(id.Name)
+			if v == nil || !sameTy(v.ty, rtys[i]) {
+				c.fail(t, "assignment target %s", id.Name)
+			}
+			pats = append(pats, v.lean)
+		}
+	}
+	for _, bk := range backs {
+		if bk.tm != "" {
+			pats = append(pats, bk.tm)
+		} else {
+			pats = append(pats, bk.v.lean)
+		}
+	}
+	pat := pats[0]
+	if len(pats) > 1 {
+		pat = "(" + strings.Join(pats, ", ") + ")"
+	}
+	fmt.Fprintf(&b, "%s(%s %s).bind fun %s =>\n", ind, fn, strings.Join(args, " "), pat)
+	for _, bk := range backs {
+		if bk.tm != "" {
+			fmt.Fprintf(&b, "%slet %s : List Int := spliceI %s %s %s\n", ind, bk.v.lean, bk.v.lean, bk.off, bk.tm)
+		}
+	}
+	return b.String()
 }
 
 func (c *fctx) assign(t *ast.AssignStmt, ind string) string {
 	var b strings.Builder
+	if len(t.Rhs) == 1 && (t.Tok == token.DEFINE || t.Tok == token.ASSIGN) {
+		if call, ok := t.Rhs[0].(*ast.CallExpr); ok && len(c.callWrites(call)) != 0 {
+			return c.callStmt(call, t.Lhs, t.Tok == token.DEFINE, ind)
+		}
+	}
+	if ix, ok := t.Lhs[0].(*ast.IndexExpr); ok && len(t.Lhs) == 1 && len(t.Rhs) == 1 && t.Tok == token.ASSIGN {
+		// xs[i] = v : functional update of the slice variable
+		id, ok := ix.X.(*ast.Ident)
+		var v *vinfo
+		if ok {
+			v = c.lookup(id.Name)
+		}
+		if v == nil || v.ty.k != tList {
+			c.fail(t, "element assignment to something that is not a local slice/array variable or parameter")
+		}
+		if !c.res {
+			panic(needRes{})
+		}
+		is, ti := c.expr(ix.Index, nil)
+		if !ti.isInt() {
+			c.fail(t, "index of type %s", ti)
+		}
+		val, tv := c.expr(t.Rhs[0], v.ty.elem)
+		if tv.typed() && !sameTy(tv, v.ty.elem) {
+			c.fail(t, "assignment of %s to an element of type %s", tv, v.ty.elem)
+		}
+		return c.flush(ind) + fmt.Sprintf("%s(setI %s %s %s).bind fun %s =>\n", ind, v.lean, is, val, v.lean)
+	}
 	switch t.Tok {
 	case token.DEFINE, token.ASSIGN:
 		if len(t.Lhs) != len(t.Rhs) {
@@ -1444,7 +1928,7 @@ func (c *fctx) ifStmt(t *ast.IfStmt, ind string, next kont) string {
 		c.restore(sn)
 		return out
 	}
-	if hasReturn(t.Body) || (t.Else != nil && hasReturn(t.Else)) {
+	if hasJump(t.Body) || (t.Else != nil && hasJump(t.Else)) {
 		// a branch that returns: the continuation is rendered inside each branch that can fall through
 		a := branch(t.Body.List, ind+"  ", next)
 		b := branch(elseList, ind+"  ", next)
@@ -1565,20 +2049,171 @@ func (c *fctx) switchToIf(t *ast.SwitchStmt) []ast.Stmt {
 	return out
 }
 
-func noBranch(c *fctx, body *ast.BlockStmt) {
+// hasJump: the node contains a `return`, or a `break`/`continue` that belongs to an enclosing loop
+func hasJump(n ast.Node) bool {
+	if n == nil {
+		return false
+	}
+	found := false
+	var walk func(n ast.Node, inLoop bool)
+	walk = func(n ast.Node, inLoop bool) {
+		ast.Inspect(n, func(x ast.Node) bool {
+			if found || x == nil {
+				return false
+			}
+			switch t := x.(type) {
+			case *ast.ReturnStmt:
+				found = true
+			case *ast.BranchStmt:
+				if !inLoop {
+					found = true
+				}
+			case *ast.FuncLit:
+				return false
+			case *ast.ForStmt:
+				if x != n {
+					walk(t.Body, true)
+					return false
+				}
+			case *ast.RangeStmt:
+				if x != n {
+					walk(t.Body, true)
+					return false
+				}
+			}
+			return true
+		})
+	}
+	walk(n, false)
+	return found
+}
+
+// ownBreak: the loop body contains a `break` of this loop
+func ownBreak(body *ast.BlockStmt) bool {
+	found := false
+	var walk func(n ast.Node)
+	walk = func(n ast.Node) {
+		ast.Inspect(n, func(x ast.Node) bool {
+			switch t := x.(type) {
+			case *ast.BranchStmt:
+				if t.Tok == token.BREAK {
+					found = true
+				}
+			case *ast.ForStmt, *ast.RangeStmt, *ast.FuncLit, *ast.SwitchStmt:
+				if x != n {
+					return false
+				}
+			}
+			return !found
+		})
+	}
+	walk(body)
+	return found
+}
+
+func checkLoopBody(c *fctx, body *ast.BlockStmt) {
 	ast.Inspect(body, func(n ast.Node) bool {
 		switch x := n.(type) {
 		case *ast.BranchStmt:
-			c.fail(x, "%s inside a loop", x.Tok)
+			if x.Label != nil || (x.Tok != token.BREAK && x.Tok != token.CONTINUE) {
+				c.fail(x, "%s", x.Tok)
+			}
 		case *ast.FuncLit:
-			c.fail(x, "function literal")
+			c.fail(x, "function literal inside a loop")
 		}
 		return true
 	})
 }
 
+type loopCtx struct{ cont, brk kont }
+
+// rangeToFor: `for i, v := range xs {…}` over a slice variable is
+// `for i := 0; i < len(xs); i++ { v := xs[i]; … }` (Go evaluates `xs` once; its length cannot change
+// in the subset, and element writes are visible to later iterations in both forms)
+func (c *fctx) rangeToFor(t *ast.RangeStmt) *ast.ForStmt {
+	id, ok := t.X.(*ast.Ident)
+	if !ok || t.Tok != token.DEFINE {
+		c.fail(t, "range over something that is not a slice variable, or without `:=`")
+	}
+	if v := c.lookup(id.Name); v == nil || v.ty.k != tList {
+		c.fail(t, "range over %s, which is not a slice variable", id.Name)
+	}
+	var iv *ast.Ident
+	if k, ok := t.Key.(*ast.Ident); ok && k.Name != "_" {
+		iv = k
+	} else {
+		c.tmp++
+		iv = &ast.Ident{NamePos: t.Pos(), Name: fmt.Sprintf("ri%d", c.tmp)}
+	}
+	body := &ast.BlockStmt{Lbrace: t.Body.Lbrace, Rbrace: t.Body.Rbrace}
+	if v, ok := t.Value.(*ast.Ident); ok && v.Name != "_" {
+		body.List = append(body.List, &ast.AssignStmt{Lhs: []ast.Expr{v}, TokPos: t.Pos(), Tok: token.DEFINE,
+			Rhs: []ast.Expr{&ast.IndexExpr{X: id, Lbrack: t.Pos(), Index: iv}}})
+	} else if t.Value != nil {
+		if _, ok := t.Value.(*ast.Ident); !ok {
+			c.fail(t, "range value")
+		}
+	}
+	body.List = append(body.List, t.Body.List...)
+	return &ast.ForStmt{For: t.For,
+		Init: &ast.AssignStmt{Lhs: []ast.Expr{iv}, TokPos: t.Pos(), Tok: token.DEFINE, Rhs: []ast.Expr{&ast.BasicLit{ValuePos: t.Pos(), Kind: token.INT, Value: "0"}}},
+		Cond: &ast.BinaryExpr{X: iv, OpPos: t.Pos(), Op: token.LSS, Y: &ast.CallExpr{Fun: &ast.Ident{NamePos: t.Pos(), Name: "len"}, Lparen: t.Pos(), Args: []ast.Expr{id}}},
+		Post: &ast.IncDecStmt{X: iv, TokPos: t.Pos(), Tok: token.INC}, Body: body}
+}
+
+// loopBody renders the body of a loop whose state is `vars`.  step mode (the body contains return
+// or break): every exit is a `Step`; otherwise the body yields the state tuple.
+func (c *fctx) loopBody(t *ast.ForStmt, vars []string, depth int, ind string, stepMode bool) (body string, partialInside bool) {
+	render := func() (string, string) {
+		sn := c.snap()
+		end := func(tag string) kont {
+			return func(ind string) string {
+				c.restoreDepth(sn, depth)
+				t2, _ := c.tupleOf(vars)
+				switch {
+				case stepMode:
+					return ind + ".ok (Step." + tag + " " + t2 + ")\n"
+				case partialInside:
+					return ind + ".ok " + t2 + "\n"
+				}
+				return ind + t2 + "\n"
+			}
+		}
+		c.loops = append(c.loops, loopCtx{cont: end("next"), brk: end("brk")})
+		saveRet := c.retFn
+		if stepMode {
+			c.retFn = func(s string) string { return ".ok (Step.ret " + s + ")" }
+		}
+		defer func() { c.loops = c.loops[:len(c.loops)-1]; c.retFn = saveRet }()
+		out := c.stmts(t.Body.List, ind+"    ", end("next"))
+		c.restore(sn)
+		return out, ""
+	}
+	if stepMode {
+		if !c.res {
+			panic(needRes{})
+		}
+		partialInside = true
+		body, _ = render()
+		return body, true
+	}
+	nl := len(c.loops)
+	body, _ = c.tryPure(render)
+	c.loops = c.loops[:nl]
+	if body == "" {
+		partialInside = true
+		body, _ = render()
+	}
+	return body, partialInside
+}
+
+// exitMatch renders what follows a step-mode loop
+func (c *fctx) exitMatch(ind, pat string, next kont) string {
+	return fmt.Sprintf("%s  | Exit.ret r => %s\n%s  | Exit.fall %s =>\n", ind, c.ret("r"), ind, pat) + next(ind+"    ")
+}
+
 func (c *fctx) forStmt(t *ast.ForStmt, ind string, next kont) string {
-	noBranch(c, t.Body)
+	checkLoopBody(c, t.Body)
 	if t.Init == nil && t.Post == nil && t.Cond != nil {
 		return c.whileStmt(t, ind, next)
 	}
@@ -1648,52 +2283,23 @@ func (c *fctx) forStmt(t *ast.ForStmt, ind string, next kont) string {
 			c.fail(t, "loop bound mentions %s, which the body assigns", v)
 		}
 	}
-	_, pat := c.tupleOf(vars)
-	initTup, _ := c.tupleOf(vars)
-	if hasReturn(t.Body) {
-		if !c.res {
-			panic(needRes{})
-		}
-		if c.retFn != nil {
-			c.fail(t, "return inside nested loops")
-		}
-		c.retFn = func(s string) string { return ".ok (Step.ret " + s + ")" }
-		sn := c.snap()
-		body := c.stmts(t.Body.List, ind+"    ", func(ind string) string {
-			c.restoreDepth(sn, depth)
-			t2, _ := c.tupleOf(vars)
-			return ind + ".ok (Step.next " + t2 + ")\n"
-		})
-		c.retFn = nil
-		c.scopes = c.scopes[:depth-1]
-		return fmt.Sprintf("%s%s(forRangeRet %s %s %s %s (fun %s %s =>\n%s%s  )).bind fun\n%s  | Step.ret r => %s\n%s  | Step.next %s =>\n",
-			pre, ind, lo, hi, step, initTup, ivLean, pat, body, ind, ind, c.ret("r"), ind, pat) + next(ind+"    ")
-	}
-	partialInside := false
-	render := func() (string, string) {
-		sn := c.snap()
-		out := c.stmts(t.Body.List, ind+"    ", func(ind string) string {
-			c.restoreDepth(sn, depth)
-			t2, _ := c.tupleOf(vars)
-			if partialInside {
-				return ind + ".ok " + t2 + "\n"
-			}
-			return ind + t2 + "\n"
-		})
-		c.restore(sn)
-		return out, ""
-	}
-	body, _ := c.tryPure(render)
-	if body == "" {
-		partialInside = true
-		body, _ = render()
-	}
+	initTup, pat := c.tupleOf(vars)
+	stepMode := hasReturn(t.Body) || ownBreak(t.Body)
+	body, partialInside := c.loopBody(t, vars, depth, ind, stepMode)
 	c.scopes = c.scopes[:depth-1]
-	if partialInside {
+	switch {
+	case stepMode:
+		return fmt.Sprintf("%s%s(forRangeRet (ρ := %s) %s %s %s %s (fun %s %s =>\n%s%s  )).bind fun\n",
+			pre, ind, c.retType(), lo, hi, step, initTup, ivLean, pat, body, ind) + c.exitMatch(ind, pat, next)
+	case partialInside:
 		return fmt.Sprintf("%s%s(forRangeM %s %s %s %s (fun %s %s =>\n%s%s  )).bind fun %s =>\n", pre, ind, lo, hi, step, initTup, ivLean, pat, body, ind, pat) + next(ind)
 	}
 	return fmt.Sprintf("%s%slet %s := forRange %s %s %s %s (fun %s %s =>\n%s%s  )\n", pre, ind, pat, lo, hi, step, initTup, ivLean, pat, body, ind) + next(ind)
 }
+
+// retType is the type a `return` produces at this point (the function result, or the result of the
+// enclosing closure)
+func (c *fctx) retType() string { return "(" + c.result.lean() + ")" }
 
 // restoreDepth drops the scopes opened inside a loop body, keeping the body scope itself
 func (c *fctx) restoreDepth(sn snapshot, depth int) {
@@ -1705,9 +2311,6 @@ func (c *fctx) restoreDepth(sn snapshot, depth int) {
 func (c *fctx) whileStmt(t *ast.ForStmt, ind string, next kont) string {
 	if c.spec.fuel <= 0 {
 		c.fail(t, "`for cond {…}` loop without a fuel annotation in the whitelist")
-	}
-	if hasReturn(t.Body) {
-		c.fail(t, "return inside a `for cond {…}` loop")
 	}
 	if !c.res {
 		panic(needRes{})
@@ -1722,14 +2325,27 @@ func (c *fctx) whileStmt(t *ast.ForStmt, ind string, next kont) string {
 	pre := c.flush(ind)
 	c.push()
 	depth := len(c.scopes)
-	sn := c.snap()
-	body := c.stmts(t.Body.List, ind+"    ", func(ind string) string {
-		c.restoreDepth(sn, depth)
-		t2, _ := c.tupleOf(vars)
-		return ind + ".ok " + t2 + "\n"
-	})
-	c.restore(sn)
+	stepMode := hasReturn(t.Body) || ownBreak(t.Body)
+	var body string
+	if stepMode {
+		body, _ = c.loopBody(t, vars, depth, ind, true)
+	} else {
+		sn := c.snap()
+		end := func(ind string) string {
+			c.restoreDepth(sn, depth)
+			t2, _ := c.tupleOf(vars)
+			return ind + ".ok " + t2 + "\n"
+		}
+		c.loops = append(c.loops, loopCtx{cont: end, brk: end})
+		body = c.stmts(t.Body.List, ind+"    ", end)
+		c.loops = c.loops[:len(c.loops)-1]
+		c.restore(sn)
+	}
 	c.scopes = c.scopes[:depth-1]
+	if stepMode {
+		return fmt.Sprintf("%s%s(whileFuelRet (ρ := %s) %d (fun %s => %s) (fun %s =>\n%s%s  ) %s).bind fun\n",
+			pre, ind, c.retType(), c.spec.fuel, pat, cond, pat, body, ind, initTup) + c.exitMatch(ind, pat, next)
+	}
 	return fmt.Sprintf("%s%s(whileFuel %d (fun %s => %s) (fun %s =>\n%s%s  ) %s).bind fun %s =>\n",
 		pre, ind, c.spec.fuel, pat, cond, pat, body, ind, initTup, pat) + next(ind)
 }
@@ -1739,8 +2355,37 @@ func (c *fctx) whileStmt(t *ast.ForStmt, ind string, next kont) string {
 
 func specKey(dir, recv, fn string) string { return dir + "|" + recv + "|" + fn }
 
+func (sp *fxSpec) key() string {
+	k := specKey(sp.pkg, sp.recv, sp.fn)
+	if sp.site != "" {
+		k += "#" + sp.site + fmt.Sprint(sp.occ) + sp.lean
+	}
+	return k
+}
+
+func (sp *fxSpec) leanName() string {
+	if sp.lean != "" {
+		return sp.lean
+	}
+	n := sp.fn
+	if sp.recv != "" {
+		n = sp.recv + "_" + sp.fn
+	}
+	if sp.site != "" {
+		n += "_" + strings.NewReplacer(":", "", ".", "_", "~", "_", " ", "", "<", "", ">", "", "=", "").Replace(sp.site)
+	}
+	return n
+}
+
+func (sp *fxSpec) tableNames() []string {
+	if sp.tables == "" {
+		return nil
+	}
+	return strings.Split(sp.tables, ",")
+}
+
 func (tr *translator) translate(sp *fxSpec) *fnOut {
-	key := specKey(sp.pkg, sp.recv, sp.fn)
+	key := sp.key()
 	if o := tr.done[key]; o != nil {
 		return o
 	}
@@ -1788,21 +2433,21 @@ func (tr *translator) tryTranslate(sp *fxSpec, pk *fxPkg, fd *ast.FuncDecl, res 
 	}()
 	c := &fctx{tr: tr, pk: pk, file: pk.fileOf[fd], spec: sp, name: sp.fn, res: res,
 		scopes: []map[string]*vinfo{{}}, used: map[string]int{}}
-	lean := sp.lean
-	if lean == "" {
-		lean = sp.fn
-		if sp.recv != "" {
-			lean = sp.recv + "_" + sp.fn
-		}
+	lean := sp.leanName()
+	if sp.site != "" {
+		c.name = sp.fn + "/" + sp.site
+		return c.translateSite(fd, lean)
 	}
 	var params []string
 	var ptys []*ity
+	var pnames []string
 	addParam := func(name string, te ast.Expr) {
 		ty := c.goType(pk, c.file, te)
 		if ty == nil || ty.k == tTuple {
 			c.fail(te, "parameter type")
 		}
 		ptys = append(ptys, ty)
+		pnames = append(pnames, name)
 		params = append(params, fmt.Sprintf("(%s : %s)", c.declare(name, ty), ty.lean()))
 	}
 	if fd.Recv != nil {
@@ -1821,40 +2466,79 @@ func (tr *translator) tryTranslate(sp *fxSpec, pk *fxPkg, fd *ast.FuncDecl, res 
 			addParam(id.Name, p.Type)
 		}
 	}
-	if fd.Type.Results == nil || len(fd.Type.Results.List) == 0 {
-		c.fail(fd, "function without a result")
+	// run-time filled package tables (spec.tables): zero arrays threaded through the init function
+	var namedInit strings.Builder
+	var tabTys []*ity
+	for _, tn := range sp.tableNames() {
+		vs := pk.vars[tn]
+		if vs == nil || vs.Type == nil || len(vs.Values) != 0 {
+			c.fail(fd, "table %s is not a package variable `var %s [N]T` without initialiser", tn, tn)
+		}
+		at, ok := vs.Type.(*ast.ArrayType)
+		lt := c.goType(pk, pk.fileOf[vs], vs.Type)
+		if !ok || at.Len == nil || lt == nil || lt.k != tList {
+			c.fail(fd, "table %s: type", tn)
+		}
+		n, _, okc := c.constVal(pk, pk.fileOf[vs], at.Len, -1, 0)
+		if !okc {
+			c.fail(fd, "table %s: length", tn)
+		}
+		tr.checkTableWrites(c, pk, tn, fd)
+		fmt.Fprintf(&namedInit, "  let %s : List Int := zerosI %s\n", c.declare(tn, lt), n.ExactString())
+		c.written = append(c.written, tn)
+		tabTys = append(tabTys, lt)
+	}
+	// written list parameters
+	var wIdx []int
+	for i, n := range pnames {
+		if ptys[i].k == tList && n != "_" && c.paramWritten(fd.Body, n) {
+			c.written = append(c.written, n)
+			wIdx = append(wIdx, i)
+		}
 	}
 	var rtys []*ity
-	var namedInit strings.Builder
-	for _, r := range fd.Type.Results.List {
-		ty := c.goType(pk, c.file, r.Type)
-		if ty == nil || !(ty.isInt() || ty.k == tBool) {
-			c.fail(r.Type, "result type")
-		}
-		n := len(r.Names)
-		if n == 0 {
-			n = 1
-		}
-		for i := 0; i < n; i++ {
-			rtys = append(rtys, ty)
-		}
-		for _, id := range r.Names {
-			c.named = append(c.named, id.Name)
-			zero := "0"
-			if ty.k == tBool {
-				zero = "false"
+	if fd.Type.Results != nil {
+		for _, r := range fd.Type.Results.List {
+			ty := c.goType(pk, c.file, r.Type)
+			if ty == nil || !(ty.isInt() || ty.k == tBool || ty.k == tStruct) {
+				c.fail(r.Type, "result type")
 			}
-			fmt.Fprintf(&namedInit, "  let %s : %s := %s\n", c.declare(id.Name, ty), ty.lean(), zero)
+			n := len(r.Names)
+			if n == 0 {
+				n = 1
+			}
+			for i := 0; i < n; i++ {
+				rtys = append(rtys, ty)
+			}
+			for _, id := range r.Names {
+				c.named = append(c.named, id.Name)
+				zero := "0"
+				if ty.k == tBool {
+					zero = "false"
+				}
+				fmt.Fprintf(&namedInit, "  let %s : %s := %s\n", c.declare(id.Name, ty), ty.lean(), zero)
+			}
 		}
 	}
-	c.result = rtys[0]
-	if len(rtys) > 1 {
-		c.result = &ity{k: tTuple, parts: rtys}
+	c.goRes = rtys
+	all := append([]*ity{}, rtys...)
+	all = append(all, tabTys...)
+	for _, i := range wIdx {
+		all = append(all, ptys[i])
+	}
+	if len(all) == 0 {
+		c.fail(fd, "function without a result and without a written slice parameter")
+	}
+	c.result = all[0]
+	if len(all) > 1 {
+		c.result = &ity{k: tTuple, parts: all}
 	}
 	c.push()
 	body := c.stmts(fd.Body.List, "  ", func(ind string) string {
-		c.fail(fd, "control can reach the end of the function body")
-		return ""
+		if len(c.goRes) != 0 {
+			c.fail(fd, "control can reach the end of the function body")
+		}
+		return ind + c.ret(c.withWritten(nil)) + "\n"
 	})
 	rt := c.result.lean()
 	if res {
@@ -1871,9 +2555,282 @@ func (tr *translator) tryTranslate(sp *fxSpec, pk *fxPkg, fd *ast.FuncDecl, res 
 	} else {
 		b.WriteString(" — total: no index, no division by a non-constant, no signed shift count, no unbounded loop")
 	}
+	if len(c.written) != 0 {
+		fmt.Fprintf(&b, "; returns the updated %s after the Go results", strings.Join(c.written, ", "))
+	}
 	b.WriteString(" -/\n")
 	fmt.Fprintf(&b, "def %s %s : %s :=\n%s%s", lean, strings.Join(params, " "), rt, namedInit.String(), body)
-	return &fnOut{spec: sp, text: b.String(), res: res, params: ptys, result: c.result, lean: lean, relFile: pk.names[pk.fileOf[fd]]}
+	// each run-time table is the corresponding component of the init function's result
+	for k, tn := range sp.tableNames() {
+		// a named selector function (not a projection or an inline match): defeq checks then unfold
+		// the table constant instead of evaluating the init loops
+		var pat []string
+		for m := range c.written {
+			if m == k {
+				pat = append(pat, "t")
+			} else {
+				pat = append(pat, "_")
+			}
+		}
+		ps := pat[0]
+		if len(pat) > 1 {
+			ps = "(" + strings.Join(pat, ", ") + ")"
+		}
+		fmt.Fprintf(&b, "\n/-- component %d of the result of `%s` (`[]` if it panicked) -/\ndef %s_%d (r : %s) : List Int :=\n  match r with\n  | .ok %s => t\n  | _ => []\n",
+			k, sp.fn, lean, k, rt, ps)
+		fmt.Fprintf(&b, "\n/-- %s: `var %s`, filled at package initialisation by `%s` (its only writer) -/\ndef %s : List Int :=\n  %s_%d %s\n",
+			pk.dir, tn, sp.fn, tableLean(c, pk, tn), lean, k, lean)
+	}
+	return &fnOut{spec: sp, text: b.String(), res: res, params: ptys, result: c.result, lean: lean,
+		relFile: pk.names[pk.fileOf[fd]], written: wIdx, goRes: rtys}
+}
+
+var assignOps = map[token.Token]token.Token{token.ADD_ASSIGN: token.ADD, token.SUB_ASSIGN: token.SUB, token.MUL_ASSIGN: token.MUL,
+	token.QUO_ASSIGN: token.QUO, token.REM_ASSIGN: token.REM, token.AND_ASSIGN: token.AND, token.OR_ASSIGN: token.OR,
+	token.XOR_ASSIGN: token.XOR, token.SHL_ASSIGN: token.SHL, token.SHR_ASSIGN: token.SHR, token.AND_NOT_ASSIGN: token.AND_NOT}
+
+// siteName: the name an assignment target is known by (`x`, `a.b.x`, `x[i]` are all `x`)
+func siteName(l ast.Expr) string {
+	switch x := l.(type) {
+	case *ast.Ident:
+		return x.Name
+	case *ast.SelectorExpr:
+		return x.Sel.Name
+	case *ast.IndexExpr:
+		return siteName(x.X)
+	case *ast.ParenExpr:
+		return siteName(x.X)
+	}
+	return ""
+}
+
+func tableLean(c *fctx, pk *fxPkg, name string) string {
+	return filepath.Base(pk.dir) + "_" + name
+}
+
+// paramWritten: the body assigns an element of the list parameter, or passes it to a callee that does
+func (c *fctx) paramWritten(body *ast.BlockStmt, name string) bool {
+	found := false
+	is := func(e ast.Expr) {
+		if id := baseIdent(e); id != nil && id.Name == name {
+			if _, plain := e.(*ast.Ident); !plain {
+				found = true
+			}
+		}
+	}
+	ast.Inspect(body, func(n ast.Node) bool {
+		switch s := n.(type) {
+		case *ast.AssignStmt:
+			if s.Tok != token.DEFINE {
+				for _, l := range s.Lhs {
+					is(l)
+				}
+			}
+		case *ast.IncDecStmt:
+			is(s.X)
+		case *ast.CallExpr:
+			for _, i := range c.callWrites(s) {
+				if i < len(s.Args) {
+					if id := baseIdent(s.Args[i]); id != nil && id.Name == name {
+						found = true
+					}
+				}
+			}
+		}
+		return !found
+	})
+	return found
+}
+
+// checkTableWrites: a run-time table may only be written inside its init function, and that
+// function must be called (without arguments) from `init` or from a function `init` calls
+func (tr *translator) checkTableWrites(c *fctx, pk *fxPkg, name string, initFn *ast.FuncDecl) {
+	for _, f := range pk.files {
+		ast.Inspect(f, func(n ast.Node) bool {
+			if n == nil || (n.Pos() >= initFn.Pos() && n.End() <= initFn.End()) {
+				return n != nil && !(n.Pos() >= initFn.Pos() && n.End() <= initFn.End())
+			}
+			check := func(l ast.Expr) {
+				if id := baseIdent(l); id != nil && id.Name == name && id.Obj == nil {
+					c.fail(n, "package table %s is written outside %s", name, initFn.Name.Name)
+				}
+			}
+			switch s := n.(type) {
+			case *ast.AssignStmt:
+				if s.Tok != token.DEFINE {
+					for _, l := range s.Lhs {
+						check(l)
+					}
+				}
+			case *ast.IncDecStmt:
+				check(s.X)
+			case *ast.UnaryExpr:
+				if s.Op == token.AND {
+					check(s.X)
+				}
+			case *ast.SliceExpr:
+				check(s.X) // a slice of the table could be written through
+			}
+			return true
+		})
+	}
+	calls := func(fd *ast.FuncDecl, callee string) bool {
+		found := false
+		if fd == nil || fd.Body == nil {
+			return false
+		}
+		ast.Inspect(fd.Body, func(n ast.Node) bool {
+			if ce, ok := n.(*ast.CallExpr); ok {
+				if id, ok := ce.Fun.(*ast.Ident); ok && id.Name == callee && len(ce.Args) == 0 {
+					found = true
+				}
+			}
+			return !found
+		})
+		return found
+	}
+	ok := false
+	for _, f := range pk.files {
+		for _, d := range f.Decls {
+			fd, isF := d.(*ast.FuncDecl)
+			if !isF || fd.Name.Name != "init" || fd.Recv != nil {
+				continue
+			}
+			if calls(fd, initFn.Name.Name) {
+				ok = true
+			}
+			for name2, g := range pk.funcs {
+				if calls(fd, name2) && calls(g, initFn.Name.Name) {
+					ok = true
+				}
+			}
+		}
+	}
+	if !ok {
+		c.fail(initFn, "%s is not called from init() (directly or through one function)", initFn.Name.Name)
+	}
+}
+
+// translateSite: an "expression site" — the right-hand side of the occ-th assignment to `site`
+// inside the function (or `if:N` / `return:N`: the N-th if condition / returned expression), with
+// its free variables as parameters whose Go types are declared in the whitelist (and checked
+// against the signature when they are parameters of the enclosing function)
+func (c *fctx) translateSite(fd *ast.FuncDecl, lean string) *fnOut {
+	sp := c.spec
+	var target ast.Expr
+	k := 0
+	kind, nth := sp.site, sp.occ
+	match := ""
+	if i := strings.Index(kind, "~"); i >= 0 { // `if~text`: the first if whose condition contains the text
+		match, kind = kind[i+1:], kind[:i]
+	} else if i := strings.Index(kind, ":"); i >= 0 {
+		nth, _ = strconv.Atoi(kind[i+1:])
+		kind = kind[:i]
+	}
+	ast.Inspect(fd.Body, func(n ast.Node) bool {
+		if target != nil {
+			return false
+		}
+		hit := func(e ast.Expr) {
+			if k == nth {
+				target = e
+			}
+			k++
+		}
+		switch s := n.(type) {
+		case *ast.IfStmt:
+			if kind == "if" && (match == "" || strings.Contains(oneLine(c.tr.fset, s.Cond), match)) {
+				hit(s.Cond)
+			}
+		case *ast.ReturnStmt:
+			if kind == "return" && len(s.Results) > 0 {
+				hit(s.Results[0])
+			}
+		case *ast.AssignStmt:
+			if len(s.Lhs) == len(s.Rhs) {
+				for i, l := range s.Lhs {
+					if siteName(l) != kind {
+						continue
+					}
+					if op, isOp := assignOps[s.Tok]; isOp {
+						// x op= e is the site `x op (e)`
+						hit(&ast.BinaryExpr{X: l, OpPos: s.TokPos, Op: op, Y: &ast.ParenExpr{Lparen: s.TokPos, X: s.Rhs[i]}})
+					} else {
+						hit(s.Rhs[i])
+					}
+				}
+			}
+		case *ast.ValueSpec:
+			if len(s.Names) == len(s.Values) {
+				for i, id := range s.Names {
+					if id.Name == kind {
+						hit(s.Values[i])
+					}
+				}
+			}
+		case *ast.KeyValueExpr:
+			if id, ok := s.Key.(*ast.Ident); ok && id.Name == kind {
+				hit(s.Value)
+			}
+		}
+		return true
+	})
+	if target == nil {
+		c.fail(fd, "expression site %q (occurrence %d) not found", sp.site, nth)
+	}
+	// declared free variables
+	sigTypes := map[string]ast.Expr{}
+	for _, p := range fd.Type.Params.List {
+		for _, id := range p.Names {
+			sigTypes[id.Name] = p.Type
+		}
+	}
+	var params []string
+	var ptys []*ity
+	for _, decl := range strings.Split(sp.vars, ",") {
+		f := strings.Fields(decl)
+		if len(f) != 2 {
+			if strings.TrimSpace(decl) == "" {
+				continue
+			}
+			c.fail(fd, "site variable declaration %q", decl)
+		}
+		te, err := parser.ParseExpr(f[1])
+		if err != nil {
+			c.fail(fd, "site variable type %q", f[1])
+		}
+		ty := c.goType(c.pk, c.file, te)
+		if ty == nil {
+			c.fail(fd, "site variable type %q", f[1])
+		}
+		if st := sigTypes[f[0]]; st != nil {
+			if sty := c.goType(c.pk, c.file, st); sty == nil || !sameTy(sty, ty) {
+				c.fail(fd, "site variable %s is declared %s in the whitelist but is a parameter of another type", f[0], f[1])
+			}
+		}
+		ptys = append(ptys, ty)
+		params = append(params, fmt.Sprintf("(%s : %s)", c.declare(f[0], ty), ty.lean()))
+	}
+	text, ty := c.expr(target, nil)
+	if !ty.typed() {
+		ty = tyInt
+	}
+	if !(ty.isInt() || ty.k == tBool) {
+		c.fail(target, "site expression of type %s", ty)
+	}
+	c.result = ty
+	pre := c.flush("  ")
+	rt := ty.lean()
+	val := text
+	if c.res {
+		rt = "R (" + rt + ")"
+		val = ".ok " + text
+	}
+	var b strings.Builder
+	src := strings.ReplaceAll(oneLine(c.tr.fset, target), "-/", "- /")
+	fmt.Fprintf(&b, "/-- %s: expression site `%s` in `%s` (free variables: %s): `%s` -/\n", c.pk.names[c.file], sp.site, sp.fn, sp.vars, src)
+	fmt.Fprintf(&b, "def %s %s : %s :=\n%s  %s\n", lean, strings.Join(params, " "), rt, pre, val)
+	return &fnOut{spec: sp, text: b.String(), res: c.res, params: ptys, result: ty, lean: lean, relFile: c.pk.names[c.file], goRes: []*ity{ty}}
 }
 
 // softTranslate: by default a function outside the subset aborts the whole generator (non-zero
@@ -1892,15 +2849,9 @@ func (tr *translator) softTranslate(sp *fxSpec, soft bool) (out *fnOut) {
 				panic(r)
 			}
 			fmt.Fprintf(os.Stderr, "extract: Funcs.lean: %s (emitted as Untranslatable)\n", e.msg)
-			lean := sp.lean
-			if lean == "" {
-				lean = sp.fn
-				if sp.recv != "" {
-					lean = sp.recv + "_" + sp.fn
-				}
-			}
+			lean := sp.leanName()
 			out = &fnOut{spec: sp, lean: lean, text: fmt.Sprintf("/-- NOT TRANSLATED: outside the supported subset -/\ndef %s : Untranslatable := ⟨%q⟩\n", lean, e.msg)}
-			tr.done[specKey(sp.pkg, sp.recv, sp.fn)] = out
+			tr.done[sp.key()] = out
 			tr.order = append(tr.order, out)
 		}
 	}()
@@ -1917,7 +2868,7 @@ func oneLineSig(fset *token.FileSet, fd *ast.FuncDecl) string {
 
 func genFuncs(repo string) (text []byte, err error) {
 	tr := &translator{repo: repo, fset: token.NewFileSet(), pkgs: map[string]*fxPkg{}, done: map[string]*fnOut{},
-		specs: map[string]*fxSpec{}, tables: map[string]string{}, strs: map[string]*ity{}, busy: map[string]bool{}}
+		specs: map[string]*fxSpec{}, initTables: map[string]*fxSpec{}, tables: map[string]string{}, strs: map[string]*ity{}, busy: map[string]bool{}}
 	defer func() {
 		if r := recover(); r != nil {
 			if e, ok := r.(tErr); ok {
@@ -1930,15 +2881,20 @@ func genFuncs(repo string) (text []byte, err error) {
 	leanNames := map[string]string{}
 	for i := range funcWhitelist {
 		sp := &funcWhitelist[i]
-		tr.specs[specKey(sp.pkg, sp.recv, sp.fn)] = sp
+		if sp.site == "" {
+			tr.specs[specKey(sp.pkg, sp.recv, sp.fn)] = sp
+		}
+		for _, tn := range sp.tableNames() {
+			tr.initTables[sp.pkg+"|"+tn] = sp
+		}
 	}
 	soft := os.Getenv("EXTRACT_FUNCS_SOFT") != "" // see softTranslate
 	for i := range funcWhitelist {
 		out := tr.softTranslate(&funcWhitelist[i], soft)
-		if prev, dup := leanNames[out.lean]; dup && prev != specKey(out.spec.pkg, out.spec.recv, out.spec.fn) {
+		if prev, dup := leanNames[out.lean]; dup && prev != out.spec.key() {
 			return nil, fmt.Errorf("function %s: Lean name %s used twice (set `lean:` in the whitelist)", out.spec.fn, out.lean)
 		}
-		leanNames[out.lean] = specKey(out.spec.pkg, out.spec.recv, out.spec.fn)
+		leanNames[out.lean] = out.spec.key()
 	}
 	var b bytes.Buffer
 	b.WriteString(funcsHeader)
@@ -2000,4 +2956,12 @@ const funcsHeader = `/- GENERATED by /verif/harness/cmd/extract (funcs.go) from 
   A definition of type R α (= Res Unit α) can return .panic (Go run-time panic) or .hang
   (fuel of a ` + "`for cond {}`" + ` loop exhausted); a definition of plain type is total.
   Parameters of sized types are assumed to be in the range of their type.
+  Slices and arrays are List Int.  A function that assigns elements of a slice parameter returns
+  the updated list after its Go results (setI: panic when out of range); such parameters are
+  assumed not to alias another parameter.  x[a:b] is sliceI (strict: b <= len), a written
+  sub-slice argument is spliced back (spliceI).  Loops with return/break yield Step/Exit values
+  (forRangeRet, whileFuelRet).  A package table filled by an init function is the corresponding
+  component of that function's translated result.  An "expression site" is one expression of a
+  larger function with its free variables as parameters (types declared in the whitelist).
+  binary.LittleEndian.Uint16/Uint32/PutUint16/PutUint32 and color.NRGBA are mapped explicitly.
 `
